@@ -21,7 +21,7 @@ import (
 // package-level functions) and returns the canonical outcome plus the values it returned.
 type rcall struct {
 	desc string
-	tag  string // for the distribution
+	tag  string                                                      // for the distribution
 	run  func(inst any, fresh bool) (outcome string, returned []any) // returned: retv values (value + snapshot taken inside the call)
 }
 
@@ -386,10 +386,23 @@ var writerPresets = []func() ojg.Options{
 	func() ojg.Options { o := ojg.DefaultOptions; o.Sort = true; o.Indent = 2; return o },
 	func() ojg.Options { o := ojg.GoOptions; o.Sort = true; return o },
 	func() ojg.Options { o := ojg.DefaultOptions; o.Sort = true; o.Tab = true; o.OmitNil = true; return o },
-	func() ojg.Options { o := ojg.DefaultOptions; o.Sort = true; o.HTMLUnsafe = false; o.OmitEmpty = true; return o },
+	func() ojg.Options {
+		o := ojg.DefaultOptions
+		o.Sort = true
+		o.HTMLUnsafe = false
+		o.OmitEmpty = true
+		return o
+	},
 	func() ojg.Options { o := ojg.DefaultOptions; o.Sort = true; o.Color = true; o.Indent = 1; return o },
 	func() ojg.Options { o := ojg.DefaultOptions; o.Sort = true; o.WriteLimit = 8; o.InitSize = 4; return o },
-	func() ojg.Options { o := ojg.DefaultOptions; o.Sort = true; o.Indent = 3; o.TimeFormat = "nano"; o.BytesAs = ojg.BytesAsArray; return o },
+	func() ojg.Options {
+		o := ojg.DefaultOptions
+		o.Sort = true
+		o.Indent = 3
+		o.TimeFormat = "nano"
+		o.BytesAs = ojg.BytesAsArray
+		return o
+	},
 }
 
 type unencodable struct {
